@@ -1,6 +1,6 @@
 \* 2 plans with every recipient set ({u1}, {u2}, {u1,u2}) and a message that may span two plans (same
 \* sequence number); stop and quiesce.  Run with -coverage 1 by the thorough tier.
-\* (stop only: 318,820 states generated, 94,000 distinct, depth 25)
+\* 553,620 states generated, 158,284 distinct (stop only: 318,820 / 94,000), depth 25.
 SPECIFICATION Spec
 CONSTANTS
   Channels = {"c1", "c2"}
